@@ -65,6 +65,32 @@ Theorem C03_expr_operators_pinned : gen_expr_impl_violations = 0 /\ gen_expr_ope
 Proof. exact expr_impl_generated. Qed.
 Print Assumptions C03_expr_operators_pinned.
 
+(* GENERATED from /repo on every run (vt/gen/c03_static.py analyse_pp): the regular expressions pp.preprocess runs over every page
+   and template text (noinclude / includeonly / onlyinclude handling) are the four reviewed patterns (plus, once the proposed fix is in, the plain closing tag) - one OPTIONAL
+   attribute group `(?:\s[^<>]STAR)?` and a lazy `.STAR?` up to the closing tag or the end - and none contains an unbounded
+   repetition nested inside an unbounded repetition whose characters overlap the rest of the repeated group (the shape
+   `(?:\s+[^<>/]+)STAR` backtracks exponentially on `<noinclude a b c ...` without a closing bracket). *)
+Theorem C03_preprocessor_regexes_pinned : gen_pp_regex_violations = 0 /\ Nat.leb 4 gen_pp_patterns = true.
+Proof. exact pp_regex_generated. Qed.
+Print Assumptions C03_preprocessor_regexes_pinned.
+
+(* GENERATED (analyse_arg_reads): along every control path of every magic of magics.py (decorator wrappers included) each
+   positional argument args[i] is read at most once, and never through a run-time index (allow-list: the open #ifexist
+   defect).  ArgumentList.get(int) expands the argument's node on every read and caches nothing. *)
+Theorem C03_magics_read_each_argument_once : gen_arg_reread_violations = 0.
+Proof. exact arg_reads_generated. Qed.
+Print Assumptions C03_magics_read_each_argument_once.
+
+(* Why that matters: k self-nested calls whose levels each expand the next level r times cost nest_cost r k expansions -
+   k + 1 for r = 1 (linear in the text), at least 2^(k+1) - 1 for every r >= 2. *)
+Theorem C03_nesting_cost_linear_when_read_once : forall k, nest_cost 1 k = k + 1.
+Proof. exact nest_cost_once. Qed.
+Print Assumptions C03_nesting_cost_linear_when_read_once.
+
+Theorem C03_nesting_cost_exponential_when_read_twice : forall r k, 2 <= r -> 2 ^ (k + 1) <= nest_cost r k + 1.
+Proof. exact nest_cost_exponential. Qed.
+Print Assumptions C03_nesting_cost_exponential_when_read_twice.
+
 (* #titleparts never outputs more than its first argument, for all integers numseg and start. *)
 Theorem C03_output_bounded_titleparts : forall title numseg start,
   length (titleparts title numseg start) <= length title.
